@@ -32,6 +32,7 @@ class Driver:
         self.graph = None
         self.kept = {}           # named results kept alive (paths, edges ..)
         self.ftable = []         # every verdict of the scenario's filter on this path
+        self.script_obs = None
 
     # ---- values
     def val(self, v):
@@ -210,6 +211,16 @@ class Driver:
         self.drop_temps(t)
         return 'ok'
 
+    def op_query(self, u):
+        """degree / predicate / lookup queries on one node"""
+        return self.dump_node(u)
+
+    def op_clone_drop(self, u):
+        t = []
+        self.handle(['clone', u], t)
+        self.drop_temps(t)
+        return 'ok'
+
     def op_dump(self, lite=None):
         if lite:
             out = []
@@ -249,15 +260,73 @@ class Driver:
         if method == 'none':
             return None
 
+        script = spec.get('script')
+        count = [0]
+
         def fn(ex, edge_ref):
             t = self.edge_triple(ex.deref(edge_ref))
+            extra = []
+            if script is not None:
+                lst = ('in' if spec.get('transpose') else 'out') if self.directed else 'adj'
+                extra = [self.exists_now(lst, t[0], t[1], t[2])]
+                if count[0] == script['at']:
+                    self.script_obs = self.run_script(script['steps'])
+                count[0] += 1
             if method == 'filter':
                 r = self.filter_value(spec, *t)
-                log.append(t + [r])
+                log.append(t + [r] + extra)
                 return r
-            log.append(t)
+            log.append(t + extra)
             return UNIT()
         return Ref(Cell(PyFn(fn)))
+
+    def run_script(self, steps):
+        out = []
+        for st in steps:
+            out.append(self.step(st))
+        return out
+
+    def exists_now(self, lst, owner_key, other_key, val):
+        """condition: the node with key owner_key currently lists (other_key, val) in its `lst` list"""
+        from logic import OR, AND, EQ
+        i = next(j for j, k in enumerate(self.keys) if _same(k, owner_key))
+        ents = self.adj_list(Ref(self.nodes[i]), lst)
+        return OR(AND([EQ(k, other_key), EQ(v, val)]) for k, v, _ in ents)
+
+    def op_loop(self, spec):
+        """a user loop over a node's edges that runs a script of operations before its `at`-th next()"""
+        ex = self.ex
+        t = []
+        noderef = self.handle(spec['node'], t)
+        kind = spec['kind']
+        if kind == 'into_iter':
+            it = ex.call(f"<&'a {self.NODE}<K, N, E> as IntoIterator>::into_iter", [noderef])
+            lst = 'out' if self.directed else 'adj'
+        else:
+            it = self.node_call(kind, [noderef])
+            lst = {'iter_out': 'out', 'iter_in': 'in', 'iter': 'adj'}[kind]
+        ity = it.kind.split('::')[-1]
+        cell = Cell(it)
+        yields, sobs, n = [], None, 0
+        while True:
+            if n == spec['at']:
+                sobs = self.run_script(spec['script'])
+            o = ex.call(f"<{self.fl}::node::{ity}<'_, K, N, E> as Iterator>::next", [Ref(cell)])
+            if o.variant == 0:
+                break
+            e = o.f[0]
+            tr = self.edge_triple(e)
+            if lst == 'in':
+                ok = self.exists_now('in', tr[1], tr[0], tr[2])
+            else:
+                ok = self.exists_now(lst, tr[0], tr[1], tr[2])
+            yields.append(tr + [ok])
+            ex.drop(e)
+            n += 1
+            if n > 24:
+                raise Budget('edge loop does not end')
+        self.drop_temps(t)
+        return {'yields': yields, 'script': sobs}
 
     def algo_path(self, name):
         mod = {'Bfs': 'bfs', 'Dfs': 'dfs', 'Pfs': 'pfs', 'Order': 'order'}[name]
@@ -302,7 +371,7 @@ class Driver:
             ex.drop(r)
         ex.drop(sc.v)
         self.drop_temps(t)
-        return {'result': res, 'calls': log}
+        return self._with_script({'result': res, 'calls': log}, spec)
 
     def op_order(self, spec):
         ex = self.ex
@@ -335,7 +404,13 @@ class Driver:
             ex.drop(r)
         ex.drop(sc.v)
         self.drop_temps(t)
-        return {'result': res, 'calls': log}
+        return self._with_script({'result': res, 'calls': log}, spec)
+
+    def _with_script(self, out, spec):
+        if spec.get('script') is not None:
+            out['script'] = getattr(self, 'script_obs', None)
+            self.script_obs = None
+        return out
 
     def err_name(self, e):
         vs = self.ex.ix.enums.get(('error', 'Error'))
